@@ -29,7 +29,7 @@ CLAIM = {
             "iterates is observed by the monitor (bound 1e-6 with solver tolerances 1e-9), not proved. Monotonicity is "
             "proved for the incompressible Nikuradse law and, in squared absolute pressures, for the isothermal "
             "constant-K level-pipe gas law (generated kernels); with pressure-dependent K, height terms for gases and "
-            "colebrook / swamee-jain friction it is a hypothesis of the theorem. Thermal start values (tfluid_k): two fixed points of the thermal system assembled from the generated kernels (C10's pipeline model, tied to build_system_matrix by C10's correspondence) for the same hydraulic solution coincide when the heat capacity is temperature-independent, every branch flows and every node is downstream of an infeed node (PropsThermal.v, on the maximum principle); stagnant regions and temperature-dependent c_p are outside the theorem (the open stagnant-region findings live exactly there) and are covered by the monitor only. "
+            "colebrook / swamee-jain friction it is a hypothesis of the theorem. Thermal start values (tfluid_k): two fixed points of the thermal system assembled from the generated kernels (C10's pipeline model, tied to build_system_matrix by C10's correspondence) for the same hydraulic solution coincide when the heat capacity is temperature-independent, every branch flows (circulation pumps admitted as identity rows with their boundary outlet temperature; for passive level networks the flow graph is proved acyclic from the hydraulic solution) and every node is downstream of an infeed node (PropsThermal.v, PropsThermalPumps.v, PropsAcyclic.v, on the maximum principle); a residual eps in the law c m|m| + c1 m pins a flow only to sqrt(2 eps / c) (PropsSensitivity.v, the derivation of the stalled-flow allowance of the monitor); stagnant regions and temperature-dependent c_p are outside the theorem (the open stagnant-region findings live exactly there) and are covered by the monitor only. "
             "Axioms (Coq reals and their classical base): ClassicalDedekindReals.sig_forall_dec, ClassicalDedekindReals.sig_not_dec, FunctionalExtensionality.functional_extensionality_dep, Classical_Prop.classic.",
     "technique": "Coq proof (graph uniqueness theorem over R) + generated source facts + differential monitor",
     "design": "DESIGN.md 4/C08 + design_notes/C08.md",
